@@ -45,8 +45,8 @@ CHECKS = {
             "Transcoder iterators, raw readers, lazy directory realisers and a foreign cursor-mover are clients stepped one operation at a time by a seeded scheduler over one SimFile; each stream's bytes must equal the model's. Small interleaving spaces are walked completely in the thorough tier.",
             "Clients are cooperative generators (the code is single-threaded; pre-emption inside one read call is not meaningful)."),
     "C12": ("exploration", "5 C12", "seeded stream/knob configurations with EOF at arbitrary instants vs per-channel model",
-            "Attributable sample values per (stream, channel, frame); block-size knob from one frame to 64 KiB; EOF of one source at every position relative to a block edge; output compared with the per-channel model.",
-            "Host byte order is not simulated (numpy's native order cannot be switched faithfully)."),
+            "Attributable sample values per (stream, channel, frame); block-size knob from one frame to 64 KiB; EOF of one source at every position relative to a block edge; patched host byte order; output compared with the per-channel model.",
+            "The host-byte-order arm patches the tool's module-level notion of the host order (the quantifier's 'patched'); numpy itself keeps decoding natively."),
     "C13": ("fault_enumeration", "5 C13", "stored-data fault injection + bounded-liveness step clock in forked children",
             "Random bytes and generated images with targeted/uniform rot, table faults, truncation and EIO; every ls/export must finish within a step budget relative to the clean arm and within an RSS bound, measured in a forked child with CPU/AS backstops.",
             "Step clock does not see C-level loops (CPU backstop only); bounds are relative to the clean run with >=20x margin."),
